@@ -67,9 +67,43 @@ def case_schedules(rec, n_chain, n_workers, n_warm, n_main, adapters):
                    [], z3.BoolVal(False), syntactic=True)
 
 
+def case_real_schedules(rec, n_warm, n_main, inits, stager):
+    """Same comparison with the real numpy Generator, the real Metropolis HMC transition and the real step-size / metric adapters
+    on floats (chains started at very different scales, so per-chain adaptation states differ): every modelled schedule
+    reproduces the sequential run bit for bit, and a second sequential run reproduces the first."""
+    rec.encoded(SA._sample_chains_parallel, SA._sample_chains_worker, SA._get_per_chain_rngs, SA.MarkovChainMonteCarloMethod.sample_chains)
+    import mici.adapters as AD
+    rec.encoded(AD.DualAveragingStepSizeAdapter.initialize, AD.DualAveragingStepSizeAdapter.finalize, AD.OnlineVarianceMetricAdapter.finalize)
+    seq = SL.run_real(n_warm, n_main, inits, n_process=1, stager=stager)
+    viol = {}
+    if SL.run_real(n_warm, n_main, inits, n_process=1, stager=stager) != seq:
+        viol["rerun-differs"] = ("two sequential runs with the same seed differ", None)
+    n_chain, n_workers, n = len(inits), 2, 0
+    for assign in itertools.product(range(n_workers), repeat=n_chain):
+        for order in itertools.permutations(range(n_workers)):
+            n += 1
+            rec.path()
+            res = SL.run_real(n_warm, n_main, inits, n_process=n_workers, stager=stager,
+                              assignment=(lambda c, a=assign: a[c]), order=(lambda ws, o=order: [ws[i] for i in o]))
+            if res != seq:
+                c = next(i for i in range(n_chain) if res["pos"][i] != seq["pos"][i] or res["accept"][i] != seq["accept"][i] or res["final"][i] != seq["final"][i])
+                viol.setdefault("real-parallel-differs-from-sequential",
+                                (f"real generator and adapters, n_process=2, assignment {assign}, worker order {order}: chain {c} positions "
+                                 f"{res['pos'][c][:4]}... but the sequential run gives {seq['pos'][c][:4]}...", (assign, order)))
+    rec.note(f"{n} schedules with the real generator")
+    for k, (msg, sched) in viol.items():
+        rec.candidate(key=f"schedule:{k}", label=msg, payload={"real": [n_warm, n_main, list(inits), stager], "sched": sched, "kind": k})
+    rec.sample({"real_generator": True, "inits": list(inits), "n_warm": n_warm, "n_main": n_main, "schedules": n})
+    rec.obligation(f"{n} schedules, real generator/adapters ({n_warm}+{n_main} iterations, starts {list(inits)}): outputs identical to the sequential run",
+                   [], z3.BoolVal(False), syntactic=True)
+
+
 def cases(tier):
     th = tier == "thorough"
     out = []
+    for n_warm, n_main, inits, stager in ((6, 3, (300.0, 0.3), "default"), (4, 2, (0.3, 300.0), "windowed111")) + (((12, 4, (300.0, 0.3, -20.0), "default"),) if th else ()):
+        out.append(Case(f"real/{stager}/{n_warm}+{n_main}/{len(inits)}chains", case_real_schedules,
+                        {"n_warm": n_warm, "n_main": n_main, "inits": list(inits), "stager": stager}, timeout_s=900))
     for n_warm, n_main in ((0, 2), (1, 1), (2, 2)) + (((3, 2), (1, 3)) if th else ()):
         for adapters in ("fast", "none"):
             out.append(Case(f"sched/2x2/{n_warm}+{n_main}/{adapters}", case_schedules,
